@@ -26,6 +26,14 @@ std::thread_local! {
 fn regenerate(c: &RefCell<u64>) -> u64 {
     use rand::RngCore;
 
+    #[cfg(kismet_verif)]
+    while let Some(rnd) = crate::verif_hooks::next_trigger_draw() {
+        if rnd > 0 {
+            c.replace(rnd);
+            return rnd;
+        }
+    }
+
     let mut rng = rand::thread_rng();
 
     loop {
@@ -35,6 +43,18 @@ fn regenerate(c: &RefCell<u64>) -> u64 {
             return rnd;
         }
     }
+}
+
+#[cfg(kismet_verif)]
+pub(crate) fn verif_counter_get() -> u64 {
+    COUNTER.with(|c| *c.borrow())
+}
+
+#[cfg(kismet_verif)]
+pub(crate) fn verif_counter_set(value: u64) {
+    COUNTER.with(|c| {
+        c.replace(value);
+    })
 }
 
 /// Decrements the counter by `weight`.  Returns true (and resets the
